@@ -42,7 +42,7 @@ func init() {
 	addMutant(mutant{Name: "metadb/getstable-wrong-bucket", Fire: []string{"ORD-10"},
 		Edits: []edit{{"metadb/metadb.go", "	stable := tx.Bucket([]byte(StableBucket))\n\n	val := stable.Get(key)", "	stable := tx.Bucket([]byte(MetaBucket))\n\n	val := stable.Get(key)"}}})
 	addMutant(mutant{Name: "metadb/commitstate-readonly-txn", Fire: []string{"ORD-10"},
-		Edits: []edit{{"metadb/metadb.go", "	tx, err := db.db.Begin(true)\n	if err != nil {\n		return err\n	}\n	defer tx.Rollback()\n	meta := tx.Bucket([]byte(MetaBucket))\n\n	if err := meta.Put(", "	tx, err := db.db.Begin(false)\n	if err != nil {\n		return err\n	}\n	defer tx.Rollback()\n	meta := tx.Bucket([]byte(MetaBucket))\n\n	if err := meta.Put("}}})
+		Edits: []edit{{"metadb/metadb.go", "	tx, err := bb.Begin(true)\n	if err != nil {\n		return err\n	}\n	defer tx.Rollback()\n	meta := tx.Bucket([]byte(MetaBucket))\n\n	if err := meta.Put(", "	tx, err := bb.Begin(false)\n	if err != nil {\n		return err\n	}\n	defer tx.Rollback()\n	meta := tx.Bucket([]byte(MetaBucket))\n\n	if err := meta.Put("}}})
 	addMutant(mutant{Name: "silent/fs-always-dirsync", Silent: true, Note: "syncing the directory on every Sync is slower but satisfies the property",
 		Edits: []edit{{"fs/file.go", "	if atomic.LoadUint32(&f.new) == 0 {\n		if err := syncDir(f.dir); err != nil {", "	{\n		if err := syncDir(f.dir); err != nil {"}}})
 }
